@@ -151,6 +151,19 @@ def impl(case):
         br.drop_coords = drop
     else:
         br = vd.BlockReduce(REDS[red], spacing=spacing, region=region, adjust=adjust, center_coordinates=centre, shape=shape, drop_coords=drop)
+    import zlib
+    if len(shape2d) == 1 and zlib.crc32(("series" + key).encode()) % 3 == 0:
+        # columns of a table that was sorted / filtered before: pandas Series whose index is NOT 0..n-1 (positions are what counts)
+        import pandas as pd
+        n_ = len(coords[0])
+        idx = [list(range(n_ - 1, -1, -1)), [(7 * k + 3) % n_ if n_ % 7 else n_ - 1 - k for k in range(n_)], list(range(1000, 1000 + n_))][len(key) % 3]
+        ser = lambda a: pd.Series(np.array(a), index=idx)  # noqa: E731
+        which = zlib.crc32(("which" + key).encode()) % 3      # 0: data only; 1: data and weights; 2: everything
+        ds = tuple(ser(d) for d in ds)
+        if ws is not None and which >= 1:
+            ws = tuple(ser(w) for w in ws)
+        if which == 2:
+            cs = tuple(ser(c) for c in cs)
     d_arg = ds[0] if len(ds) == 1 else ds
     w_arg = None if ws is None else (ws[0] if len(ws) == 1 else ws)
     # history: the same instance is first used on a different cloud (shifted, stretched); the result on the case's cloud
